@@ -9,14 +9,16 @@ From AV Require Import Base.Util Model.Consumer Model.ConsumerLog Proofs.Consume
 Notation ww := (wp pw_out).
 
 (* a: the state is known to be dead (stopping / stopped / start Deferred fired); b: moreover no processor result is
-   awaited ("drained").  Both persist through every method.  w: the window.  Invariants 13 and 6 of the model: while alive a pending
+   awaited ("drained").  Both persist through every method.  w: the window (inside it no processor result is awaited
+   and, while alive, a block is in progress).  Invariants 13 and 6 of the model: while alive a pending
    processor result implies a block in progress; a stopped consumer awaits no processor result. *)
 Definition pw_neutral (o : output) : bool := match o with OStartD _ _ | OShutD _ _ _ => true | _ => false end.
 Definition inv13b (s : state) : bool := dead s || implb (is_some (s_proc s)) (is_some (s_mblock s)).
 Definition inv6b (s : state) : bool := implb (negb (is_some (s_startd s))) (negb (is_some (s_proc s))).
 Definition PInv (d : bool * bool) (w : option (Z * Z)) (s : state) : Prop :=
   (0 <=? c_acn (s_cf s)) && inv13b s && inv6b s && forallb pw_neutral (s_pend s)
-  && implb (fst d) (dead s) && implb (snd d) (negb (is_some (s_proc s))) && implb (snd d) (fst d) = true.
+  && implb (fst d) (dead s) && implb (snd d) (negb (is_some (s_proc s))) && implb (snd d) (fst d)
+  && implb (is_some w) (negb (is_some (s_proc s)) && (dead s || is_some (s_mblock s))) = true.
 Definition PInvF (d : bool * bool) (s : state) : Prop :=      (* the part of PInv that does not speak of the processor *)
   (0 <=? c_acn (s_cf s)) && forallb pw_neutral (s_pend s) && implb (fst d) (dead s) = true.
 Lemma PInvF_of d w s : PInv d w s -> PInvF d s.
@@ -94,7 +96,7 @@ Ltac pquick :=
         | solve [ unfold pw_abs; psimpl; f_equal; first [ reflexivity | congruence ] ]
         | solve [ unfold pw_abs; psimpl; rw_hyps; reflexivity ] ].
 Lemma dcons d w s : PInv d w s -> implb (snd d) (fst d) = true.
-Proof. unfold PInv. intro H. apply andb_prop in H. tauto. Qed.
+Proof. unfold PInv. intro H. repeat (apply andb_prop in H; destruct H as [H ?]). assumption. Qed.
 (* only the most recent invariant hypothesis (about the current state) matters (and the consistency of the mode) *)
 Ltac keep_last :=
   try match goal with
@@ -233,14 +235,15 @@ Ltac c8 := idtac; first [ c7 | lazymatch goal with
 Definition loop_ok (s : state) : Prop := dead s || (negb (is_some (s_proc s)) && is_some (s_mblock s)) = true.
 Definition PreD (k : kont) (d : bool * bool) (w : option (Z * Z)) (g : gpw) (s : state) : Prop :=
   match k with
-  | KStop => g = pw_abs w s /\ PInv d w s /\ (is_some w = true -> s_proc s = None)
+  | KStop => g = pw_abs w s /\ PInv d w s
   | KFireProc fk =>
     match s_proc s with
     | Some (l, _, _) => w = None /\ g = fired s l fk /\ PInv d None s
     | None => g = pw_abs w s /\ PInv d w s /\ (is_some w = true -> snd d = true)
     end
   | KProcLoop _ => g = pw_abs w s /\ PInv d w s /\ (is_some w = true -> snd d = true) /\ loop_ok s
-  | _ => g = pw_abs w s /\ PInv d w s /\ (is_some w = true -> snd d = true)
+  | KFetchResp _ _ => g = pw_abs w s /\ PInv d w s /\ (is_some w = true -> snd d = true)
+  | _ => g = pw_abs w s /\ PInv d w s        (* these never reach the processor: allowed inside the window even alive *)
   end.
 Definition dmode (k : kont) (d : bool * bool) : bool * bool :=
   match k with KStop => (true, true) | KFireProc _ => (fst d, fst d) | _ => d end.
@@ -252,18 +255,25 @@ Section Rec.
 Variable rec : kont -> M unit.
 Hypothesis Hrec : forall k d w g s, PreD k d w g s -> ww (rec k) (PostD k d w s) g s.
 
-Lemma Hrec_plain k d w s : PInv d w s -> (is_some w = true -> snd d = true) ->
-  match k with KStop | KFireProc _ | KProcLoop _ => False | _ => True end ->
+Lemma Hrec_plain k d w s : PInv d w s ->
+  match k with KStop | KFireProc _ | KProcLoop _ | KFetchResp _ _ => False | _ => True end ->
   ww (rec k) (PQ d w) (pw_abs w s) s.
 Proof.
-  intros K W Hk. eapply wp_conseq; [apply (Hrec k d w) |].
+  intros K Hk. eapply wp_conseq; [apply (Hrec k d w) |].
   - destruct k; try contradiction; cbn; auto.
   - intros r g' s' [-> [H | (E & _)]]; [| subst k; contradiction]. destruct k; try contradiction; split; auto.
 Qed.
-Lemma Hrec_stop d w s : PInv d w s -> (is_some w = true -> s_proc s = None) -> is_some (s_startd s) = true ->
+Lemma Hrec_fetch offs ts d w s : PInv d w s -> (is_some w = true -> snd d = true) ->
+  ww (rec (KFetchResp offs ts)) (PQ d w) (pw_abs w s) s.
+Proof.
+  intros K W. eapply wp_conseq; [apply (Hrec (KFetchResp offs ts) d w) |].
+  - cbn; auto.
+  - intros r g' s' [-> [H | (E & _)]]; [| discriminate E]. split; auto.
+Qed.
+Lemma Hrec_stop d w s : PInv d w s -> is_some (s_startd s) = true ->
   ww (rec KStop) (PQ (true, true) w) (pw_abs w s) s.
 Proof.
-  intros K W SD. eapply wp_conseq; [apply (Hrec KStop d w) |].
+  intros K SD. eapply wp_conseq; [apply (Hrec KStop d w) |].
   - cbn. repeat split; auto.
   - intros r g' s' [-> [H | (_ & E & _)]]; [split; auto | rewrite E in SD; discriminate SD].
 Qed.
@@ -283,49 +293,55 @@ Ltac pinv_arg := try (match goal with K : PInv ?d0 _ _ |- PInv ?e _ _ => is_evar
 Ltac c9 := idtac; first [ c8 | lazymatch goal with
   | |- wp _ (rec KStop) _ _ _ =>
     let w0 := cur_w in eapply p_eq with (w := w0); [ solve [psolve] |
-      eapply wp_call; [ eapply Hrec_stop; [ pinv_arg | wcond | solve [psolve] ] | after_call ] ]
+      eapply wp_call; [ eapply Hrec_stop; [ pinv_arg | solve [psolve] ] | after_call ] ]
   | |- wp _ (rec (KProcLoop _)) _ _ _ =>
     let w0 := cur_w in eapply p_eq with (w := w0); [ solve [psolve] |
       eapply wp_call; [ eapply Hrec_loop; [ pinv_arg | wcond | solve [lsolve] ] | after_call ] ]
   | |- wp _ (rec (KFireProc _)) _ _ _ => fail
+  | |- wp _ (rec (KFetchResp _ _)) _ _ _ =>
+    let w0 := cur_w in eapply p_eq with (w := w0); [ solve [psolve] |
+      eapply wp_call; [ eapply Hrec_fetch; [ pinv_arg | wcond ] | after_call ] ]
   | |- wp _ (rec _) _ _ _ =>
     let w0 := cur_w in eapply p_eq with (w := w0); [ solve [psolve] |
-      eapply wp_call; [ eapply Hrec_plain; [ pinv_arg | wcond | exact I ] | after_call ] ]
+      eapply wp_call; [ eapply Hrec_plain; [ pinv_arg | exact I ] | after_call ] ]
   end ].
 
-Lemma p_handle_commit_error fk i a d w s : PInv d w s -> (is_some w = true -> snd d = true) ->
+Lemma p_handle_commit_error fk i a d w s : PInv d w s ->
   ww (handle_commit_error rec fk i a) (PQ d w) (pw_abs w s) s.
-Proof. intros K W. unfold handle_commit_error. p_walk c9. all: p_done. Qed.
-Lemma p_fire_all ds r d w s : PInv d w s -> (is_some w = true -> snd d = true) ->
+Proof. intros K. unfold handle_commit_error. p_walk c9. all: p_done. Qed.
+Lemma p_fire_all ds r d w s : PInv d w s ->
   ww (fire_all rec ds r) (PQ d w) (pw_abs w s) s.
 Proof.
-  revert s. induction ds as [|x ds IH]; intros s K W; cbn [fire_all].
+  revert s. induction ds as [|x ds IH]; intros s K; cbn [fire_all].
   - p_walk c9. all: p_done.
-  - p_walk c9. all: try (apply IH; [solve [psolve] | wcond]). all: p_done.
+  - p_walk c9. all: try (apply IH; solve [psolve]). all: p_done.
 Qed.
 (* the end of a block: the parked reply, if any, is handled next *)
 Lemma p_finish_block d w s : PInv d w s -> (is_some w = true -> snd d = true) -> dead s || negb (is_some (s_proc s)) = true ->
   ww (finish_block rec) (PQ d w) (pw_abs w s) s.
-Proof. intros K W N. unfold finish_block. p_walk c9. all: p_done. Qed.
+Proof.
+  intros K W N. assert (W' : implb (is_some w) (snd d) = true) by (destruct w; cbn; auto).
+  unfold finish_block. p_walk c9. all: p_done.
+Qed.
 Ltac c10 := idtac; first [ c9 | lazymatch goal with
   | |- wp _ (handle_commit_error _ _ _ _) _ _ _ =>
     let w0 := cur_w in eapply p_eq with (w := w0); [ solve [psolve] |
-      eapply wp_call; [ eapply p_handle_commit_error; [ pinv_arg | wcond ] | after_call ] ]
+      eapply wp_call; [ eapply p_handle_commit_error; pinv_arg | after_call ] ]
   | |- wp _ (fire_all _ _ _) _ _ _ =>
     let w0 := cur_w in eapply p_eq with (w := w0); [ solve [psolve] |
-      eapply wp_call; [ eapply p_fire_all; [ pinv_arg | wcond ] | after_call ] ]
+      eapply wp_call; [ eapply p_fire_all; pinv_arg | after_call ] ]
   | |- wp _ (finish_block _) _ _ _ =>
     let w0 := cur_w in eapply p_eq with (w := w0); [ solve [psolve] |
       eapply wp_call; [ eapply p_finish_block; [ pinv_arg | wcond | solve [lsolve] ] | after_call ] ]
   end ].
 
 (* stop()'s cancellation of the processor's Deferred: afterwards the state is drained *)
-Lemma p_stop_proc (d : bool * bool) w s : PInv (true, false) w s -> (is_some w = true -> s_proc s = None) ->
+Lemma p_stop_proc (d : bool * bool) w s : PInv (true, false) w s ->
   ww (stop_proc rec) (PQ (true, true) w) (pw_abs w s) s.
 Proof.
-  intros K W. unfold stop_proc. apply wp_bind, wp_get. cbn beta iota.
+  intros K. unfold stop_proc. apply wp_bind, wp_get. cbn beta iota.
   destruct (s_proc s) as [[[l rest] c]|] eqn:D.
-  - destruct w as [[wl wr]|]; [specialize (W eq_refl); discriminate W|].
+  - destruct w as [[wl wr]|]; [exfalso; clear - K D; unfold PInv in K; rewrite D in K; cbn in K; rewrite !andb_false_r in K; discriminate K|].
     apply wp_bind. apply wp_emit. eexists. split.
     { unfold pw_abs. cbn [pw_out w_st]. rewrite D. reflexivity. }
     cbn beta iota. apply wp_swallow.
@@ -339,8 +355,8 @@ Lemma p_stop_req d w s : PInv d w s ->
 Proof. intro K. unfold stop_req, PF, Fp. p_walk c10. all: p_done. Qed.
 Lemma p_stop_rcall d w s : PInv d w s -> ww stop_rcall (PF d w s) (pw_abs w s) s.
 Proof. intro K. unfold stop_rcall, PF, Fp. p_walk c10. all: p_done. Qed.
-Lemma p_stop_creq d w s : PInv d w s -> (is_some w = true -> snd d = true) -> ww (stop_creq rec) (PQ d w) (pw_abs w s) s.
-Proof. intros K W. unfold stop_creq. p_walk c10. all: p_done. Qed.
+Lemma p_stop_creq d w s : PInv d w s -> ww (stop_creq rec) (PQ d w) (pw_abs w s) s.
+Proof. intros K. unfold stop_creq. p_walk c10. all: p_done. Qed.
 Lemma p_stop_ccall d w s : PInv d w s -> ww stop_ccall (PF d w s) (pw_abs w s) s.
 Proof. intro K. unfold stop_ccall, PF, Fp. p_walk c10. all: p_done. Qed.
 Lemma p_stop_looper d w s : PInv d w s -> ww stop_looper (PF d w s) (pw_abs w s) s.
@@ -354,14 +370,14 @@ Ltac c11 := idtac; first [ c10 | lazymatch goal with
   | |- wp _ stop_susp _ _ _ => p_docall p_stop_susp
   | |- wp _ (stop_creq _) _ _ _ =>
     let w0 := cur_w in eapply p_eq with (w := w0); [ solve [psolve] |
-      eapply wp_call; [ eapply p_stop_creq; [ pinv_arg | wcond ] | after_call ] ]
+      eapply wp_call; [ eapply p_stop_creq; pinv_arg | after_call ] ]
   end ].
 
 Ltac fin_k := try solve [ split; [ solve [psolve] | left; solve [psolve] ] ].
-Lemma p_body_KStop d w s : PInv d w s -> (is_some w = true -> s_proc s = None) ->
+Lemma p_body_KStop d w s : PInv d w s ->
   ww (body rec KStop) (PostD KStop d w s) (pw_abs w s) s.
 Proof.
-  intros K W. cbn [body]. unfold PostD, dmode.
+  intros K. cbn [body]. unfold PostD, dmode.
   apply wp_bind, wp_get. cbn beta iota. destruct (s_startd s) as [b|] eqn:SD.
   2:{ apply wp_raise. split; auto. }
   apply wp_bind, wp_upd. cbn beta iota.
@@ -370,33 +386,31 @@ Proof.
   apply wp_bind. p_docall_d p_stop_req (true, false). all: try discriminate. all: fin_k.
   (* the parked reply is dropped *)
   unfold stop_mblock. apply wp_bind, wp_bind, wp_get. cbn beta iota.
-  assert (W' : is_some w = true -> s_proc s' = None)
-    by (intro; match goal with H : s_proc s' = _ |- _ => rewrite H end; psimpl; auto).
   match goal with |- wp _ (match ?x with _ => _ end) _ _ _ => destruct x eqn:MB end; wp_prim; cbn beta iota.
   all: apply wp_bind; eapply p_eq with (w := w); [reflexivity|];
-    (eapply wp_call; [ apply (p_stop_proc (true, false) w); [ psolve | psimpl; exact W' ] |]);
+    (eapply wp_call; [ apply (p_stop_proc (true, false) w); psolve |]);
     after_call; fin_k;
     unfold stop_startd; p_walk c11; fin_k.
 Qed.
 
-Lemma p_body_KStopCds d w s : PInv d w s -> (is_some w = true -> snd d = true) ->
+Lemma p_body_KStopCds d w s : PInv d w s ->
   ww (body rec KStopCds) (PostD KStopCds d w s) (pw_abs w s) s.
-Proof. intros K W. cbn [body]. unfold PostD, dmode. p_walk c11. all: fin_k. Qed.
+Proof. intros K. cbn [body]. unfold PostD, dmode. p_walk c11. all: fin_k. Qed.
 Lemma p_body_KFetchResp offs ts d w s : PInv d w s -> (is_some w = true -> snd d = true) ->
   ww (body rec (KFetchResp offs ts)) (PostD (KFetchResp offs ts) d w s) (pw_abs w s) s.
 Proof. intros K W. cbn [body]. unfold PostD, dmode. p_walk c11. all: fin_k. Qed.
-Lemma p_body_KCommitAndStop d w s : PInv d w s -> (is_some w = true -> snd d = true) ->
+Lemma p_body_KCommitAndStop d w s : PInv d w s ->
   ww (body rec KCommitAndStop) (PostD KCommitAndStop d w s) (pw_abs w s) s.
-Proof. intros K W. cbn [body]. unfold PostD, dmode. p_walk c11. all: fin_k. Qed.
-Lemma p_body_KShutFinish fk d w s : PInv d w s -> (is_some w = true -> snd d = true) ->
+Proof. intros K. cbn [body]. unfold PostD, dmode. p_walk c11. all: fin_k. Qed.
+Lemma p_body_KShutFinish fk d w s : PInv d w s ->
   ww (body rec (KShutFinish fk)) (PostD (KShutFinish fk) d w s) (pw_abs w s) s.
-Proof. intros K W. cbn [body]. unfold PostD, dmode. p_walk c11. all: fin_k. Qed.
-Lemma p_body_KFireCd x r d w s : PInv d w s -> (is_some w = true -> snd d = true) ->
+Proof. intros K. cbn [body]. unfold PostD, dmode. p_walk c11. all: fin_k. Qed.
+Lemma p_body_KFireCd x r d w s : PInv d w s ->
   ww (body rec (KFireCd x r)) (PostD (KFireCd x r) d w s) (pw_abs w s) s.
-Proof. intros K W. cbn [body]. unfold PostD, dmode. p_walk c11. all: fin_k. Qed.
-Lemma p_body_KDeliver r d w s : PInv d w s -> (is_some w = true -> snd d = true) ->
+Proof. intros K. cbn [body]. unfold PostD, dmode. p_walk c11. all: fin_k. Qed.
+Lemma p_body_KDeliver r d w s : PInv d w s ->
   ww (body rec (KDeliver r)) (PostD (KDeliver r) d w s) (pw_abs w s) s.
-Proof. intros K W. cbn [body]. unfold PostD, dmode. p_walk c11. all: fin_k. Qed.
+Proof. intros K. cbn [body]. unfold PostD, dmode. p_walk c11. all: fin_k. Qed.
 
 Lemma PInv_drained d s : PInv d None s -> s_proc s = None -> PInv (fst d, fst d) None s.
 Proof. intros K N. psolve. Qed.
